@@ -131,7 +131,7 @@ func (p Proxy) ServeHTTP(w http.ResponseWriter, r *http.Request) (int, error) {
 	replacer := httpserver.NewReplacer(r, nil, "")
 
 	// outreq is the request that makes a roundtrip to the backend
-	outreq, cancel := createUpstreamRequest(w, r)
+	upstreamReq, cancel := createUpstreamRequest(w, r)
 	defer cancel()
 
 	// If we have more than one upstream host defined and if retrying is enabled
@@ -147,12 +147,12 @@ func (p Proxy) ServeHTTP(w http.ResponseWriter, r *http.Request) (int, error) {
 	requiresBuffering := upstream.GetHostCount() > 1 && upstream.GetTryDuration() != 0
 
 	if requiresBuffering {
-		body, err := newBufferedBody(outreq.Body)
+		body, err := newBufferedBody(upstreamReq.Body)
 		if err != nil {
 			return http.StatusBadRequest, errors.New("failed to read downstream request body")
 		}
 		if body != nil {
-			outreq.Body = body
+			upstreamReq.Body = body
 		}
 	}
 
@@ -193,6 +193,11 @@ func (p Proxy) ServeHTTP(w http.ResponseWriter, r *http.Request) (int, error) {
 		}
 
 		proxy := host.ReverseProxy
+
+		// every attempt works on its own copy of the upstream request: the
+		// director rewrites the URL in place and the header rules modify the
+		// header map, and neither must accumulate from one attempt to the next
+		outreq := cloneForAttempt(upstreamReq)
 
 		// a backend's name may contain more than just the host,
 		// so we parse it as a URL to try to isolate the host.
@@ -286,6 +291,22 @@ func (p Proxy) ServeHTTP(w http.ResponseWriter, r *http.Request) (int, error) {
 	}
 
 	return http.StatusBadGateway, backendErr
+}
+
+// cloneForAttempt returns a copy of req with its own URL and header map
+// (the body is shared; a buffered body is rewound before each attempt).
+func cloneForAttempt(req *http.Request) *http.Request {
+	c := new(http.Request)
+	*c = *req
+	if req.URL != nil {
+		u := *req.URL
+		c.URL = &u
+	}
+	c.Header = make(http.Header, len(req.Header))
+	for k, vv := range req.Header {
+		c.Header[k] = append([]string(nil), vv...)
+	}
+	return c
 }
 
 // match finds the best match for a proxy config based on r.
